@@ -232,9 +232,6 @@ func (x *faultExec) sweep(k int, twin bool, a []string) string {
 	}
 	base := observeAll(e)
 	stamp := dirStamp(e.wdbPath)
-	// volatile trace of a failed attempt that no query shows: a task handed to the worker although the
-	// operation failed (e.g. PushRemove / PushImport before the Update has committed)
-	_, _, tasks0 := e.wm.VerifQueueLens()
 	dirty := ""
 	result := ""
 	single := singleUpdateOp(a)
@@ -242,6 +239,7 @@ func (x *faultExec) sweep(k int, twin bool, a []string) string {
 		done := false
 		for rep := 0; rep < k; rep++ {
 			x.fdb.arm(j)
+			lastQueuedTasks = 0
 			out := persistOp(e, a)
 			hit, kind, _ := x.fdb.disarm()
 			if !hit {
@@ -270,7 +268,9 @@ func (x *faultExec) sweep(k int, twin bool, a []string) string {
 				if d := firstDiff(base, observeAll(e)); d != "" && dirty == "" && single {
 					dirty = fmt.Sprintf("obs@%d:%s:%s", j, kind, d)
 				}
-				if _, _, tasks := e.wm.VerifQueueLens(); tasks != tasks0 && dirty == "" {
+				// volatile trace of a failed attempt that no query shows: a task handed to the worker although
+				// the operation failed (e.g. PushRemove / PushImport before the Update has committed)
+				if lastQueuedTasks != 0 && dirty == "" {
 					dirty = fmt.Sprintf("task-queued@%d:%s", j, kind)
 				}
 			}
